@@ -209,8 +209,6 @@ def r5(ctx):
 
 
 RULES = [r1, r2, r3, r4, r5]
-CLAIMED = False
-NA_REASON = "rules C01.R1-R5 are wired; R1 (entry flag masks) fires on the unchanged tree and is being triaged before the property is claimed"
 EXPLANATION = ("C01 (log contents equal an append-only list model across reopen): decides the replay codec agreement of the oplog Entry — each optional section is decoded under the flag bit it was "
                "encoded with, flags 1/2/4/8, same presence conditions in size and encode (R1); replay completeness — every field of Entry reaches its consumer inside the replay loop of Hypercore::new, the "
                "rebuilt changeset is completed, copied into the header and committed, entries are walked in log order (R2); the read gate — every storage read of get() is dominated by bitfield.get(index), the "
